@@ -144,7 +144,13 @@ def write_hap(case, path, sorted_for_tabix):
             lines.append("\t".join([r["t"], r["chrom"], str(r["start"]), str(r["end"]), r["id"]]))
             for v in r["vars"]:
                 lines.append("\t".join(["V", r["id"], str(v[0]), str(v[1]), v[2], v[3]]))
-    text = C.text_ending(case, "in.hap", "#\tversion\t0.2.0\n# a free comment\n" + "\n".join(lines) + "\n")
+    header = "#\tversion\t0.2.0\n# a free comment\n"
+    if sorted_for_tabix and C.plumb(case, "extras", 3) == 0:
+        # kept as it is (--no-sort), the file may carry extra fields (a simphenotype .hap with its beta; a note that may be empty, so
+        # that the line ends in a tab): all of it has to survive, and the queries have to work on it
+        header += "#\torderH\tbeta\tnote\n#\torderR\tbeta\n#H\tbeta\t.2f\tEffect size\n#H\tnote\ts\tFree text\n#R\tbeta\t.2f\tEffect size\n"
+        lines = [(l + ("\t0.25\t" + ["", "x y", "ok"][k % 3] if l.startswith("H\t") else "\t0.50")) if l[:2] in ("H\t", "R\t") else l for k, l in enumerate(lines)]
+    text = C.text_ending(case, "in.hap", header + "\n".join(lines) + "\n")
     if str(path).endswith(".gz"):
         with gzip.open(path, "wt") as f:
             f.write(text)
@@ -196,8 +202,15 @@ def impl(case):
     full.read()
     obs["full"] = snapshot(full)
     res = []
+    reuse = C.plumb(case, "one-object", 3) == 0
+    shared = None
+    if reuse:
+        # one object for all queries of the case (a loop over chromosomes, say), asked first for a contig the file does not hold –
+        # that answer is outside the property, the later ones are not
+        shared = Haplotypes(out, log=SD.silent_log())
+        C.guarded(lambda: shared.read(region="contigNotInFile:1-1000"))
     for q in case["queries"]:
-        h = Haplotypes(out, log=SD.silent_log())
+        h = shared if reuse else Haplotypes(out, log=SD.silent_log())
         r = C.guarded(lambda: (h.read(region=region_str(q), haplotypes=None if q["ids"] is None else set(q["ids"])), snapshot(h))[1])
         res.append(r)
     obs["results"] = res
